@@ -445,7 +445,7 @@ theorem layoutProp_lookup (w : World) (cv : ClassV) (hn : KeysNodup cv.dict) (k 
   have hlt : r < (layoutProp w cv).1.length := (List.getElem?_eq_some_iff.1 hr2).1
   have he : Extends (layoutProp w cv).1 (layout w cv).heap :=
     (extends_foldl _ (extends_allocDecl _) cv.dict ((layoutProp w cv).1, [])).trans
-      (extends_foldl _ (extends_allocAcc (w.restrictTo cv.decl.mro) _ _) cv.dict ((layoutDecl w cv).1, []))
+      (extends_foldl _ (extends_allocAcc (w.restrictTo cv.decl.mro.tail) _ _) cv.dict ((layoutDecl w cv).1, []))
   unfold Heap.propAt
   rw [he.get hlt]
   exact (by rw [show (layoutProp w cv).1[r]? = some (Obj.prop p) from hr2])
